@@ -509,7 +509,11 @@ impl RowIdTreeMap {
         let (mut start_high, mut start_low) = match range.start_bound() {
             std::ops::Bound::Included(&start) => ((start >> 32) as u32, start as u32),
             std::ops::Bound::Excluded(&start) => {
-                let start = start.saturating_add(1);
+                if start == u64::MAX {
+                    // nothing lies above an excluded u64::MAX: the range is empty
+                    return 0;
+                }
+                let start = start + 1;
                 ((start >> 32) as u32, start as u32)
             }
             std::ops::Bound::Unbounded => (0, 0),
@@ -518,7 +522,11 @@ impl RowIdTreeMap {
         let (end_high, end_low) = match range.end_bound() {
             std::ops::Bound::Included(&end) => ((end >> 32) as u32, end as u32),
             std::ops::Bound::Excluded(&end) => {
-                let end = end.saturating_sub(1);
+                if end == 0 {
+                    // nothing lies below an excluded 0: the range is empty
+                    return 0;
+                }
+                let end = end - 1;
                 ((end >> 32) as u32, end as u32)
             }
             std::ops::Bound::Unbounded => (u32::MAX, u32::MAX),
